@@ -15,6 +15,11 @@ import (
 )
 
 func runGrandpa(k *kernel.K) {
+	// a sixth of the C22 runs: the generic implementation's rounds with weighted voter sets (generic.go)
+	if k.Prop == "C22" && k.Bool(1, 6, "generic-rounds") {
+		runGenericRounds(k)
+		return
+	}
 	s := &gsim{k: k, cut: map[[2]int]bool{}, chg: map[common.Hash]uint32{}}
 	if k.Prop == "C18" {
 		s.n = k.Range(1, 10, "voters")
